@@ -54,10 +54,23 @@ def Harmless (f : Conn → Conn) : Prop :=
   ∀ y, (f y).id = y.id ∧ (f y).app = y.app ∧ (f y).side = y.side ∧ (f y).mailbox = y.mailbox ∧
     (f y).listening = y.listening
 
+/-- a `message` frame -/
+def Frame.isMsg : Frame → Bool
+  | .message _ _ _ _ _ => true
+  | _ => false
+
+def Event.isMsg : Event → Bool
+  | .frame _ f _ => f.isMsg
+  | _ => false
+
 namespace Sys
 
+/-- `T` survives the sending of `message` frames too -/
+def MsgClosed (T : Sys → Prop) : Prop := ∀ s c f, T s → T (s.send c f)
+
 structure ClosedBase (T : Sys → Prop) : Prop where
-  emit : ∀ s e, T s → T (s.emit e)
+  /-- any event except a `message` frame (those need `MsgClosed`) -/
+  emit : ∀ s e, e.isMsg = false → T s → T (s.emit e)
   modUdb : ∀ s f, T s → T (s.modUdb f)
   commit : ∀ s, T s → T s.commit
   ucommit : ∀ s, T s → T s.ucommit
@@ -79,23 +92,27 @@ section base
 variable {T : Sys → Prop} (hT : ClosedBase T)
 include hT
 
-theorem ClosedBase.send {s : Sys} (h : T s) (c f) : T (s.send c f) := hT.emit _ _ h
-theorem ClosedBase.sendError {s : Sys} (h : T s) (c t) : T (s.sendError c t) := hT.emit _ _ h
-theorem ClosedBase.internalErr {s : Sys} (h : T s) (c t) : T (s.internalErr c t) := hT.emit _ _ h
+theorem ClosedBase.send {s : Sys} (h : T s) (c f) (hf : Frame.isMsg f = false := by rfl) :
+    T (s.send c f) := hT.emit _ _ hf h
+theorem ClosedBase.sendError {s : Sys} (h : T s) (c t) : T (s.sendError c t) := hT.emit _ _ rfl h
+theorem ClosedBase.internalErr {s : Sys} (h : T s) (c t) : T (s.internalErr c t) := hT.emit _ _ rfl h
 
-theorem ClosedBase.foldl_send {α : Type} (g : α → Nat) (fr : α → Frame) (l : List α) :
+omit hT in
+theorem MsgClosed.foldl_send (hm : MsgClosed T) {α : Type} (g : α → Nat) (fr : α → Frame) (l : List α) :
     ∀ {s : Sys}, T s → T (l.foldl (fun s a => s.send (g a) (fr a)) s) := by
   induction l with
   | nil => intro s h; exact h
-  | cons a l ih => intro s h; exact ih (hT.send h _ _)
+  | cons a l ih => intro s h; exact ih (hm _ _ _ h)
 
-theorem ClosedBase.replay {s : Sys} (h : T s) (c app mb) : T (s.replay c app mb) := by
+omit hT in
+theorem MsgClosed.replay (hm : MsgClosed T) {s : Sys} (h : T s) (c app mb) : T (s.replay c app mb) := by
   unfold Sys.replay
-  exact hT.foldl_send (fun _ => c) (fun (m : Message) => .message m.side m.phase m.body m.rx m.msgId) _ h
+  exact hm.foldl_send (fun _ => c) (fun (m : Message) => .message m.side m.phase m.body m.rx m.msgId) _ h
 
-theorem ClosedBase.broadcast {s : Sys} (h : T s) (app mb f) : T (s.broadcast app mb f) := by
+omit hT in
+theorem MsgClosed.broadcast (hm : MsgClosed T) {s : Sys} (h : T s) (app mb f) : T (s.broadcast app mb f) := by
   unfold Sys.broadcast
-  exact hT.foldl_send (fun c => c) (fun _ => f) _ h
+  exact hm.foldl_send (fun c => c) (fun _ => f) _ h
 
 theorem ClosedBase.storeNameplateUsage {s : Sys} (h : T s) (app sides t p) :
     T (s.storeNameplateUsage app sides t p).1 := by
@@ -352,7 +369,7 @@ theorem Closed.handleRelease {s : Sys} (h : T s) (x app side t n) :
     · exact go _
     · exact hT.toClosedBase.sendError h _ _
 
-theorem Closed.handleAdd {s : Sys} (h : T s) (x app side t id ph bd) :
+theorem Closed.handleAdd (hm : MsgClosed T) {s : Sys} (h : T s) (x app side t id ph bd) :
     T (s.handleAdd x app side t id ph bd) := by
   unfold Sys.handleAdd
   split
@@ -361,10 +378,11 @@ theorem Closed.handleAdd {s : Sys} (h : T s) (x app side t id ph bd) :
     · exact hT.toClosedBase.sendError h _ _
     · split
       · exact hT.toClosedBase.sendError h _ _
-      · exact hT.toClosedBase.broadcast (hT.toClosedG.addMessage h _ _ _ _ _ _ _) _ _ _
+      · exact hm.broadcast (hT.toClosedG.addMessage h _ _ _ _ _ _ _) _ _ _
 
 /-- every command except `bind`, `open`, `close` (those change binding / handle / subscription) -/
 theorem Closed.onMessage {s : Sys} (h : T s) (c t id) {cmd : Cmd}
+    (hm : (∃ ph bd, cmd = .add ph bd) → MsgClosed T)
     (hb : ∀ a sd i v, cmd ≠ .bind a sd i v) (ho : ∀ m, cmd ≠ .open_ m) (hc : ∀ m mood, cmd ≠ .close m mood) :
     T (s.onMessage c t id cmd) := by
   unfold Sys.onMessage
@@ -406,7 +424,7 @@ theorem Closed.onMessage {s : Sys} (h : T s) (c t id) {cmd : Cmd}
       dsimp only
       split
       · exact hT.toClosedBase.sendError ha _ _
-      · exact hT.handleAdd ha _ _ _ _ _ _ _
+      · exact hT.handleAdd (hm ⟨ph, bd, rfl⟩) ha _ _ _ _ _ _ _
     | close m mood => exact absurd rfl (hc m mood)
 
 end handlers
@@ -428,7 +446,8 @@ theorem ClosedC.handleBind {s : Sys} (h : T s) (x t a sd i v) : T (s.handleBind 
       · exact hT.toClosedBase.sendError h _ _
       · exact hT.toClosedBase.logClientVersion (hT.updConn h _ _) _ _ _ _ _
 
-theorem ClosedC.handleOpen {s : Sys} (h : T s) (x app side t m) : T (s.handleOpen x app side t m) := by
+theorem ClosedC.handleOpen (hm : MsgClosed T) {s : Sys} (h : T s) (x app side t m) :
+    T (s.handleOpen x app side t m) := by
   unfold Sys.handleOpen
   split
   · exact hT.toClosedBase.sendError h _ _
@@ -443,7 +462,7 @@ theorem ClosedC.handleOpen {s : Sys} (h : T s) (x app side t m) : T (s.handleOpe
         rw [e] at h1
       · exact hT.toClosedBase.sendError h1 _ _
       · exact hT.toClosedBase.internalErr h1 _ _
-      · exact hT.toClosedBase.replay (hT.updConn h1 _ _) _ _ _
+      · exact hm.replay (hT.updConn h1 _ _) _ _ _
 
 end growC
 
@@ -522,6 +541,7 @@ theorem handleClose_track {T T' : Sys → Prop} (hT : ClosedC T) (hT' : ClosedBa
 theorem onMessage_track {T T' : Sys → Prop} (hT : ClosedC T) (hT' : ClosedBase T')
     (hconns' : ∀ s cs, T' s → T' { s with conns := cs }) (hsub : ∀ s, T s → T' s)
     {s : Sys} (c : Nat) (t : Time) (id : Val) (cmd : Cmd)
+    (hm : ((∃ ph bd, cmd = .add ph bd) ∨ (∃ m, cmd = .open_ m)) → MsgClosed T)
     (hcs : ∀ x m mood app tgt, s.findConn c = some x → cmd = .close m mood → x.app = some app →
       x.closeTarget m = some tgt → ∀ s1, T s1 → s1.db.HasBox app tgt →
       T (s1.modDb (·.closeSide tgt (x.side.getD "") mood)))
@@ -559,8 +579,8 @@ theorem onMessage_track {T T' : Sys → Prop} (hT : ClosedC T) (hT' : ClosedBase
         · dsimp only
           split
           · exact hb'.sendError (hb'.send h c (.ack id)) _ _
-          · exact hT.handleOpen (hb'.send h c (.ack id)) _ _ _ _ _
-      · exact hT.toClosed.onMessage h c t id (fun a sd i v e => hbi ⟨a, sd, i, v, e⟩)
+          · exact hT.handleOpen (hm (Or.inr ⟨m, rfl⟩)) (hb'.send h c (.ack id)) _ _ _ _ _
+      · exact hT.toClosed.onMessage h c t id (fun he => hm (Or.inl he)) (fun a sd i v e => hbi ⟨a, sd, i, v, e⟩)
           (fun m e => hop ⟨m, e⟩) (fun m mood e => hcl ⟨m, mood, e⟩)
 
 /-! ### the sweep -/
@@ -635,14 +655,14 @@ theorem ClosedDel.expire {s : Sys} (h : T s) (now fault) : T (s.expire now fault
   unfold Sys.expire
   dsimp only
   apply hT.toClosedBase.dumpStats
-  have h0 : T (s.emit (.fired now (now - Generated.expirationTicks))) := hT.emit _ _ h
+  have h0 : T (s.emit (.fired now (now - Generated.expirationTicks))) := hT.emit _ _ rfl h
   split
-  · exact hT.emit _ _ h0
+  · exact hT.emit _ _ rfl h0
   · have h1 := hT.pruneApps (now := now) (old := now - Generated.expirationTicks)
       ((s.emit (.fired now (now - Generated.expirationTicks))).allApps) h0
     split <;> rename_i heq <;> rw [heq] at h1
     · exact h1
-    · exact hT.emit _ _ h1
+    · exact hT.emit _ _ rfl h1
 
 end del
 
@@ -659,7 +679,7 @@ theorem Track.mono {R R' : Chan → Prop} (h : ∀ d, R d → R' d) {s : Sys} (h
   ⟨h _ hs.db, h _ hs.disk, fun p hp => h _ (hs.snaps p hp)⟩
 
 theorem Track.closedBase (R : Chan → Prop) : ClosedBase (Track R) where
-  emit := fun _ _ h => ⟨h.db, h.disk, h.snaps⟩
+  emit := fun _ _ _ h => ⟨h.db, h.disk, h.snaps⟩
   modUdb := fun _ _ h => ⟨h.db, h.disk, h.snaps⟩
   commit := by
     intro s h
@@ -683,6 +703,8 @@ theorem Track.closedBase (R : Chan → Prop) : ClosedBase (Track R) where
       rcases hp with hp | rfl
       · exact h.snaps p hp
       · exact h.disk
+
+theorem Track.msgClosed (R : Chan → Prop) : MsgClosed (Track R) := fun _ _ _ h => ⟨h.db, h.disk, h.snaps⟩
 
 theorem Track.modDb {R : Chan → Prop} {s : Sys} (h : Track R s) (f : Chan → Chan) (hf : R (f s.db)) :
     Track R (s.modDb f) := ⟨hf, h.disk, h.snaps⟩
